@@ -86,7 +86,7 @@ func init() {
 	}
 	Props["C13"] = &PropSpec{
 		Level:       "other",
-		Rules:       []string{"R34", "R14", "R35", "R36", "R37", "R45", "R28", "R30", "R11"},
+		Rules:       []string{"R34", "R14", "R35", "R36", "R37", "R45", "R28", "R30", "R11", "R25"},
 		Explanation: "Plumbing clauses for all flag combinations: every flag is declared once, read with its declared kind (urfave/cli returns the zero value silently otherwise), and reaches the option it names; the page size reaches TargetGeopackage.pagesize; overwrite guards os.Remove (R34, R14); same-typed arguments are not swapped (R35); validation gates all work; one target per validated id, stored under and named from that id, removed first under overwrite; tables are processed with source and every target switched to the table before the run and untouched afterwards (R36); the quadtree gate comes first inside validation and every validation error is returned (R37); the target name is the given name with _<id> inserted before exactly its extension (R45); the delivery clauses of the pipeline (R28, R30, R11). Per-table content otherwise follows from C10-C12.",
 		Decided:     []string{"flag table agreement (R34)", "option reads (R14)", "argument order (R35)", "order of operations in the action and in initGPKGTarget (R36)", "validation order (R37)"},
 		NotDecided:  []string{"path.Split/Ext semantics of the standard library for unusual paths", "SQLite behaviour"},
